@@ -28,6 +28,22 @@ Theorem C05_refused_handle_leaves_wrapper_unchanged :
   ho_dyn (handle (codegen m feat) gd d ev pl w None) = d.
 Proof. exact handle_err_unchanged. Qed.
 
+(* The machine handed back stays fully usable: calling the same method on it again, with hook
+   behaviour under which every Before stage proceeds and no condition blocks, succeeds -- exactly as
+   it would have on the original machine (the refusal left nothing behind). *)
+Theorem C05_retry_after_refusal_succeeds :
+  forall (m : machine) (e : edge) (self : tmachine) (pl pl' : option nat) (w w' : oracle) (m' : tmachine) (ge : gerr),
+  ro_res (run_method (gen_method m e) self pl w None) = RErr m' ge ->
+  all_benign w' (hooks_of (g_hooks e)) 0 = true ->
+  none_blocks w' (conds e) (length (h_around (g_hooks e))) = true ->
+  run_method (gen_method m e) m' pl' w' None = run_method (gen_method m e) self pl' w' None /\
+  exists t, ro_res (run_method (gen_method m e) m' pl' w' None) = ROk t.
+Proof.
+  intros m e self pl pl' w w' m' ge Hr Hb Hn.
+  destruct (refused_intact m e self pl w m' ge Hr) as (-> & _).
+  split; [reflexivity|]. apply (fires_iff m e self pl' w' Hb). exact Hn.
+Qed.
+
 (* Histories: an operation that is refused (typed Err, dynamic Err incl. wrong-state, a failed
    into_<s>(), an operation that does not exist on the current state) leaves the configuration as it
    was, so the rest of any history -- a retry under a changed hook behaviour included -- is observed
@@ -52,5 +68,6 @@ Example C05_example :
 Proof. vm_compute. reflexivity. Qed.
 
 Print Assumptions C05_refused_typed_call_returns_the_machine_intact.
+Print Assumptions C05_retry_after_refusal_succeeds.
 Print Assumptions C05_refused_handle_leaves_wrapper_unchanged.
 Print Assumptions C05_refusal_is_a_noop_anywhere_in_a_history.
